@@ -333,6 +333,28 @@ func runTree(c TreeCase) (res evid.Result) {
 		res.Skip = true
 		return
 	}
+	// reference model for the submodule rule, on simple names only: a file is left out exactly when
+	// one of its proper ancestor directories (other than the root) holds a cue.mod/module.cue
+	has := map[string]bool{}
+	for _, f := range files {
+		has[f.name] = true
+	}
+	validSet := set(cf.Valid)
+	for _, f := range files {
+		if !simpleName(f.name) {
+			continue
+		}
+		inSub := false
+		for d := path.Dir(f.name); d != "." && d != "/"; d = path.Dir(d) {
+			if has[d+"/cue.mod/module.cue"] {
+				inSub = true
+			}
+		}
+		if inSub == validSet[f.name] {
+			res.Fail = fmt.Sprintf("CheckFiles lists %q as valid=%v, but by the submodule rule it is inside-another-module=%v\nfiles: %q", f.name, validSet[f.name], inSub, names2(files))
+			return
+		}
+	}
 	var buf bytes.Buffer
 	cerr := modzip.Create(&buf, mv, files, memIO{})
 	if (cerr == nil) != (cf.Err() == nil) {
@@ -441,10 +463,44 @@ func runTree(c TreeCase) (res evid.Result) {
 					return
 				}
 			}
+			// CreateFromDir must archive exactly what CheckDir calls valid
+			if dcf.Err() == nil {
+				var dbuf bytes.Buffer
+				if err := modzip.CreateFromDir(&dbuf, mv, dir); err != nil {
+					res.Fail = fmt.Sprintf("CheckDir accepts the directory but CreateFromDir fails: %v\nfiles: %q", err, names2(files))
+					return
+				}
+				_, _, zc, zerr := modzip.CheckZip(mv, bytes.NewReader(dbuf.Bytes()), int64(dbuf.Len()))
+				if zerr != nil || zc.Err() != nil {
+					res.Fail = fmt.Sprintf("archive emitted by CreateFromDir fails CheckZip: %v / %v", zerr, zc.Err())
+					return
+				}
+				var dv []string
+				for v := range dvalid {
+					dv = append(dv, v)
+				}
+				if fmt.Sprint(sorted(zc.Valid)) != fmt.Sprint(sorted(dv)) {
+					res.Fail = fmt.Sprintf("CreateFromDir archived %q but CheckDir lists %q as valid\nfiles: %q", sorted(zc.Valid), sorted(dv), names2(files))
+					return
+				}
+			}
 			res.Classes = append(res.Classes, "dir-compared")
 		}
 	}
 	return
+}
+
+// simpleName: lower-case letters, digits, '-', '.', '/' only, a .cue file, no special directories.
+func simpleName(n string) bool {
+	if !strings.HasSuffix(n, ".cue") || strings.Contains(n, "cue.mod") || strings.Contains(n, "vendor") || strings.HasPrefix(n, ".") || strings.Contains(n, "/.") {
+		return false
+	}
+	for _, r := range n {
+		if !(r >= 'a' && r <= 'z' || r >= '0' && r <= '9' || r == '/' || r == '.' || r == '-') {
+			return false
+		}
+	}
+	return !strings.Contains(n, "..") && !strings.Contains(n, "//")
 }
 
 func plain(n string) bool {
@@ -476,7 +532,7 @@ func genTree(t *rapid.T) TreeCase {
 		c.Files = nil
 	}
 	n := rapid.IntRange(0, 6).Draw(t, "n")
-	good := []string{"a.cue", "b/c.cue", "b/d/e.cue", "x/y.cue", "LICENSE", "README.md", "é.cue", "data.json", "sub/z.cue", "A.cue", "b/C.cue", ".hidden", "cue.mod/pkg/x.cue", "vendor/x.cue", "sub/cue.mod/module.cue", ".git/config", "name with space"}
+	good := []string{"sub.cue", "subway/y.cue", "sub-x/z.cue", "sub/inner.cue", "b.cue", "b/cue.mod/module.cue", "bc/d.cue", ".git", "sub/.git", ".hg", "zz/last.cue", "a.cue", "b/c.cue", "b/d/e.cue", "x/y.cue", "LICENSE", "README.md", "é.cue", "data.json", "sub/z.cue", "A.cue", "b/C.cue", ".hidden", "cue.mod/pkg/x.cue", "vendor/x.cue", "sub/cue.mod/module.cue", ".git/config", "name with space"}
 	for i := 0; i < n; i++ {
 		name := rapid.SampledFrom(good).Draw(t, "gname")
 		if rapid.IntRange(0, 3).Draw(t, "hostile") == 0 {
